@@ -58,8 +58,14 @@ def main():
             prop = mid.split("-")[0]
             ap_r = sh(f"git -C {REPO} apply {d}/patch.diff")
             if ap_r.returncode != 0:
+                # later repairs touched the same lines: fall back to a 3-way merge of the change
+                sh(f"git -C {REPO} reset -q --hard HEAD")
+                ap_r = sh(f"git -C {REPO} apply --3way {d}/patch.diff")
+                if ap_r.returncode != 0 or sh(f"git -C {REPO} diff --quiet --diff-filter=U").returncode != 0:
+                    ap_r.returncode = 1
+            if ap_r.returncode != 0:
                 res = {"id": mid, "applies": False, "note": ap_r.stdout.decode()[-400:]}
-                sh(f"git -C {REPO} checkout -- .")
+                sh(f"git -C {REPO} reset -q --hard HEAD")
             else:
                 ok, blog = build()
                 if not ok:
@@ -70,7 +76,7 @@ def main():
                         checks.append(run_check(other, a.tier, a.seed))
                     res = {"id": mid, "applies": True, "builds": True, "checks": checks,
                            "detected": checks[0]["exit"] == 1 and checks[0]["violation_lines"] > 0}
-                sh(f"git -C {REPO} checkout -- .")
+                sh(f"git -C {REPO} reset -q --hard HEAD")
             res["repo_head"] = sh(f"git -C {REPO} rev-parse --short HEAD").stdout.decode().strip()
             json.dump(res, open(f"{d}/result.json", "w"), indent=1)
             rows.append(res)
@@ -78,7 +84,7 @@ def main():
             print(mid, "detected" if res.get("detected") else "MISSED" if res.get("builds") else "n/a",
                   c0.get("exit"), c0.get("clauses"), flush=True)
     finally:
-        sh(f"git -C {REPO} checkout -- .")
+        sh(f"git -C {REPO} reset -q --hard HEAD")
     mpath = f"{ROOT}/{a.dir}/MATRIX.json"
     prev = {r["id"]: r for r in (json.load(open(mpath)) if os.path.exists(mpath) else [])}
     prev.update({r["id"]: r for r in rows})
